@@ -329,7 +329,7 @@ def gen_genbank(rng, n):
         elif r < 0.88:
             kind = rng.choice(["nuc", "nuc_amb", "prot_stop"])
             seq = gen_seq(rng, kind, 1, 150)
-            ops.append({"op": "typed_annotated", "kind": kind, "seq": seq, "start": rng.choice([1, 1, 5, 1001, 999999, 123456789]),
+            ops.append({"op": "typed_annotated", "kind": kind, "seq": seq, "start": rng.choice([1, 1, 5, 1001, 999999, 123456789, 1234567890, 31415926535]),
                         "features": gen_annotation(rng, max(len(seq), 2)), "medium": rng.choice(MEDIA)})
             size += 2
         elif r < 0.92:
